@@ -20,7 +20,9 @@ inline Prog decode(hz::Reader &r) {
     // the root is launched from ordinary code: modes that need a coroutine context are mapped
     if (p.n[0].mode == M_DETACH_AWAIT) p.n[0].mode = M_DETACH_DISCARD;
     if (p.n[0].mode == M_COAWAIT) p.n[0].mode = M_JOIN;
-    for (size_t i = 1; i < p.n.size(); i++) if (p.n[i].mode == M_JOIN) p.n[i].mode = M_COAWAIT;     // blocking wait inside a coroutine is asserted against
+    // a blocking wait inside a coroutine is asserted against - but join() of a child that completes without suspending
+    // never waits (start() inside a coroutine runs the child at once), so it is kept for a leaf that returns or throws
+    for (size_t i = 1; i < p.n.size(); i++) if (p.n[i].mode == M_JOIN && !(i + 1 == p.n.size() && (p.n[i].comp == C_VALUE || p.n[i].comp == C_THROW))) p.n[i].mode = M_COAWAIT;
     // a blocking join of the root: nothing below may wait for the joining thread itself
     bool root_blocks = p.n[0].mode == M_JOIN;
     if (root_blocks) for (auto &x : p.n) if (x.comp == C_SUSPEND_SAME) x.comp = C_SUSPEND_OTHER;
@@ -86,7 +88,11 @@ cocls::async<void> launch_from_coro(Ctx *c, int k) {
                                          HZ_CHECK(ok, "start(live promise) reported failure"); co_await f.has_value(); got = observe_fut<VT>(f); } break;
             case M_START_PROMISE_CLAIMED: { cocls::future<T> f; auto pr = f.get_promise(); cocls::promise<T> thief(std::move(pr)); auto a = node<cocls::async<T>, VT>(c, k, Guard(SLOT_ARG));
                                             bool ok = a.start(pr); HZ_CHECK(!ok, "start(already claimed promise) reported success"); thief(cocls::drop); } break;
-            case M_COAWAIT: case M_JOIN: {
+            case M_JOIN: {          // only generated for a leaf that completes synchronously
+                auto a = node<cocls::async<T>, VT>(c, k, Guard(SLOT_ARG));
+                if constexpr (VT == 1) { a.join(); got = 0; } else if constexpr (VT == 0) got = a.join(); else { val::Counted v = a.join(); got = v.val(); }
+            } break;
+            case M_COAWAIT: {
                 auto a = node<cocls::async<T>, VT>(c, k, Guard(SLOT_ARG));
                 if constexpr (VT == 1) { co_await a; got = 0; } else if constexpr (VT == 0) { int v = co_await a; got = v; } else { val::Counted copy = co_await a; got = copy.val(); }
             } break;
